@@ -268,6 +268,50 @@ def mk_decorated(ti, syntax, imax):
                           'push_value', 'format.utils.split_by_lines', 'format.haml/pug/slim']}
 
 
+# element lines in the presence of bare text nodes: where the text itself lands is outside the claim, the ELEMENT lines are not
+TEXTY = [('ex>ey+{t}+ez', [('ex', 0), ('ey', 1), ('ez', 1)]),
+         ('ul>li>{x}^li.c', [('ul', 0), ('li', 1), ('li.c', 1)]),
+         ('ex>ey>{x}+ez^ew', [('ex', 0), ('ey', 1), ('ez', 2), ('ew', 1)]),
+         ('ex>{t}+ey>ez', [('ex', 0), ('ey', 1), ('ez', 2)]),
+         ('ex>(ey>{t})*901+ez', None)]
+
+
+def mk_texty(ti, syntax):
+    from vf.pipe import expand_injected, make_config, set_repeat
+    abbr, heads = TEXTY[ti]
+    S = SYN[syntax]
+
+    def harness(wrong):
+        def h(r: int, two: bool):
+            if '*901' in abbr:
+                if not (1 <= r <= 3):
+                    return 'skip'
+                hs = [('ex', 0)] + [('ey', 1)] * r + [('ez', 1)]
+            else:
+                if r != 1:
+                    return 'skip'
+                hs = heads
+            ind = '  ' if two else '\t'
+            out = expand_injected(abbr, make_config({'syntax': syntax, 'options': {'output.indent': ind}}),
+                                  (lambda toks: set_repeat(toks, 901, r)) if '*901' in abbr else None)
+            lines = out.split('\n')
+            if len(lines) != len(hs):
+                return 'not_one_line_per_element'
+            for k, (head, depth) in enumerate(hs):
+                pre = ind * (depth + (1 if wrong and depth else 0))
+                rest = lines[k][len(pre):]
+                if lines[k][:len(pre)] != pre or rest[:1] == ' ' or rest[:1] == '\t':
+                    return 'element_line_at_wrong_indent:' + head
+                if not rest.startswith(S['before'] + head):
+                    return 'element_line_out_of_order:' + head
+            return True
+        return h
+    return {'fn': harness(False), 'twin': harness(True), 'witnesses': [dict(r=2 if '*901' in abbr else 1, two=True)],
+            'assumptions': ['template %s, syntax %s; indent two spaces or a tab; repeat 1..3; only the lines of named elements are '
+                            'checked (their indentation and order)' % (abbr, syntax)],
+            'functions': ['format.indent_format.element (level bookkeeping around text-only nodes)']}
+
+
 def jobs(tier):
     q = tier == 'quick'
     K = 5 if q else 6
@@ -277,6 +321,9 @@ def jobs(tier):
             out.append(Job('C15-a/structure/K=%d,%s,first=%d' % (K, syn, first), 'vf.props.c15:mk_structure',
                            dict(K=K, syntax=syn, first=first), shape='H', bound='<=%d items' % K, budget=900 if q else 3000,
                            weight=300))
+        for ti in range(len(TEXTY)):
+            out.append(Job('C15-c/texty/%s/t%02d' % (syn, ti), 'vf.props.c15:mk_texty', dict(ti=ti, syntax=syn), shape='H',
+                           bound='template', budget=600, weight=20))
         for ti in range(len(DECO)):
             out.append(Job('C15-b/decorated/%s/t%02d' % (syn, ti), 'vf.props.c15:mk_decorated',
                            dict(ti=ti, syntax=syn, imax=2 if q else 3), shape='H', bound='template', budget=900, weight=60))
